@@ -118,6 +118,40 @@ theorem boundary_echo (v : Val) (hc : Canon v) :
         and_widthMask _ _ hw, and_widthMask _ _ hw, Nat.mod_eq_of_lt hp, Nat.mod_eq_of_lt hm]
     · simp only [hw, if_false, if_true, vW2, vM2]
 
+/-- `SimCtx::write_words` on a port of ANY width (also exact multiples of 64, where the top word
+must be kept whole): the port receives exactly the low `width` bits of the words, a cleared X/Z
+mask and the dirty flag — the same buffer `SimCtx::write` (`to_port_words`) produces. -/
+theorem write_words_spec (ws : List Nat) (width : Nat) (hg : Good ws (wordsFor width)) :
+    ∃ q, writeWords (newPort width) ws = some q ∧ q.dirty = true ∧
+      q.mask = List.replicate (wordsFor width) 0 ∧
+      q.words = toPortWords ws width ∧
+      Good q.words (wordsFor width) ∧ wordsValue q.words = wordsValue ws % 2 ^ width := by
+  have hs := maskTopWord_spec ws width hg
+  have he := writeWordsBuf_eq_maskTopWord ws width hg
+  have ht : toPortWords ws width = maskTopWord ws width := by
+    simp only [toPortWords]; rw [← hg.1, resize_self]
+  refine ⟨{ newPort width with words := writeWordsBuf ws width, mask := List.replicate (wordsFor width) 0, dirty := true }, ?_, rfl, rfl, ?_, ?_, ?_⟩
+  · simp [writeWords, newPort, hg.1]
+  · simp only [he, ht]
+  · simp only [he]; exact hs.1
+  · simp only [he]; exact hs.2
+
+/-- `SimCtx::write_u64` on a scalar port (1..64 bits): the word is the value modulo `2^width`
+(the whole value at width 64), the mask word is cleared. -/
+theorem write_u64_spec (width value : Nat) (h0 : 0 < width) (hw : width ≤ 64) (hv : value < Words.two64) :
+    writeU64 (newPort width) value =
+      some { newPort width with words := [value % 2 ^ width], mask := [0], dirty := true } := by
+  have hn : wordsFor width = 1 := wordsFor_small _ hw
+  have h0' : width ≠ 0 := by omega
+  simp only [writeU64, newPort, hn, h0', if_false, List.replicate]
+  by_cases h64 : width ≥ 64
+  · have : width = 64 := by omega
+    subst this
+    have e : value % 2 ^ 64 = value := Nat.mod_eq_of_lt (by rw [← two64_eq]; exact hv)
+    simp [e]
+  · have hs := shift_mask width h0 (by omega)
+    simp only [h64, if_false, hs, Nat.and_two_pow_sub_one_eq_mod]
+
 /-- wasm transport: `u64` words written to linear memory as little-endian bytes and read back
 (`words_to_bytes` → `Memory::write` → `guest_bytes` → `bytes_to_words`) come back unchanged. -/
 theorem wasm_memory_roundtrip (mem : List Nat) (ptr : Nat) (ws mem' : List Nat)
@@ -249,6 +283,8 @@ theorem outputs_untouched {κ : Type} (rtl : Store → List (Nat × Nat)) (s : S
 example : Canon ⟨.big, 2 ^ 99 + 5, 2 ^ 98 + 1, 100⟩ := by
   refine ⟨by decide, by decide, ?_⟩; intro h; cases h
 example : Canon ⟨.u64, 5, 6, 3⟩ := ⟨by decide, by decide, fun _ => ⟨by decide, by decide⟩⟩
+/-- A 128-bit port (exact multiple of 64) with the top word fully set. -/
+example : Good [5, 18446744073709551615] (wordsFor 128) := ⟨by decide, by intro w hw; simp at hw; rcases hw with rfl | rfl <;> decide⟩
 example : Good [1, 2] (wordsFor 100) := ⟨by decide, by intro w hw; simp at hw; rcases hw with rfl | rfl <;> decide⟩
 
 end VerylModel.Props.C35
